@@ -382,6 +382,45 @@ def r_outside_fn(m, rep, R='R1.2c'):
         if n.kind == 'BinaryOperator' and n.op == '=':
             assigns.append((term(n.kids[0], env), term(n.kids[1], env), n))
     loops = [s for s in body.kids if s.kind == 'ForStmt']
+    psums = [term(s_, env) for s_ in body.kids if strip(s_).kind == 'CallExpr' and (strip(strip(s_).kids[0]).ref or '') == 'partial_sum']
+    if len(loops) == 1 and len(vecs) == 2 and len(psums) == 2:
+        # the two running sums written with std::partial_sum: out[k] = in[0] + .. + in[k] from the given output position on.
+        #   forward:  partial_sum(p.begin(), p.end(), L.begin() + a)     gives L[a + k] = p[0] + .. + p[k]
+        #   backward: partial_sum(p.rbegin(), p.rend(), R.rbegin() + b)  gives R[length - b - k] = p[length-1-k] + .. + p[length-1]
+        # the table needs L[i] = sum of p below i and R[j] = sum of p from j on: a = 1 and b = 1, on zero-filled vectors
+        def zero_filled0(name):
+            for d in vecs:
+                if d.name == name:
+                    i = env.init_of(d)
+                    t = term(i, env) if i is not None else None
+                    return t is not None and t[0] == 'ctor' and 1 <= len(t[2]) <= 3 and all(a in (LIT(0), LIT(0.0), ('default',)) for a in t[2][1:])
+            return False
+        lv = rv = None
+        detail = []
+        for t in psums:
+            a_ = t[2]
+            if len(a_) != 3:
+                continue
+            first, last, outp = a_
+            off = LIT(0)
+            if outp[0] == 'bin' and outp[1] == '+':
+                outp, off = outp[2], outp[3]
+            if first == ('mcall', V(probs), 'begin', ()) and last == ('mcall', V(probs), 'end', ()) and outp[0] == 'mcall' and outp[2] == 'begin' and outp[1][0] == 'var':
+                lv = (outp[1], off)
+                detail.append('%s from begin()+%s' % (outp[1][1], canon(off)))
+            if first == ('mcall', V(probs), 'rbegin', ()) and last == ('mcall', V(probs), 'rend', ()) and outp[0] == 'mcall' and outp[2] == 'rbegin' and outp[1][0] == 'var':
+                rv = (outp[1], off)
+                detail.append('%s from rbegin()+%s' % (outp[1][1], canon(off)))
+        okp = lv is not None and rv is not None and lv[1] == LIT(1) and rv[1] == LIT(1) and zero_filled0(lv[0][1]) and zero_filled0(rv[0][1])
+        rep.check(okp, R, w(body), 'outside:sum-range',
+                  'the prefix sums start one position in (from_left[i] = p[0..i-1]) and so do the suffix sums (from_right[j] = p[j..]), on zero-filled vectors (%s)' % '; '.join(detail),
+                  'the running sums written with std::partial_sum are %s: a sum that starts at the first position of its vector includes the word at the boundary itself, so the '
+                  'estimate of a span also counts the best scores of one of its own words and is no longer an upper bound of what remains' % ('; '.join(detail) or 'not recognised'))
+        if lv is None or rv is None:
+            return
+        left, right = (lv[0],), (rv[0],)
+        _outside_table(m, rep, R, env, body, loops[0], assigns, left, right, length, out, w, vecs)
+        return
     if len(loops) not in (2, 3) or len(vecs) != 2:
         raise AnalysisError('%s: compute_outside_probabilities: unexpected shape (%d loops, %d vectors)'
                             % (H, len(loops), len(vecs)))
@@ -491,6 +530,11 @@ def r_outside_fn(m, rep, R='R1.2c'):
     okz = base_ok(left[0], LIT(0)) and base_ok(right[0], V(length))
     rep.check(okz, R, w(body), 'outside:base', 'from_left[0] = 0 and from_right[length] = 0',
               'base cases of the prefix/suffix sums are not 0 at index 0 / length')
+    _outside_table(m, rep, R, env, body, loops[1], assigns, left, right, length, out, w, vecs)
+
+
+def _outside_table(m, rep, R, env, body, table_loop, assigns, left, right, length, out, w, vecs):
+    loops = [None, table_loop]
     # table fill
     v2, lo2, c2, st2, b2 = _for_bounds(env, loops[1])
     inner = [s for s in b2.walk() if s.kind == 'ForStmt']
